@@ -48,16 +48,21 @@ pub fn all_byte_universes<F: Fam>(ctx: &Ctx, light: &(dyn Fn(&[u8]) + Sync), hea
     let (nb, full_r, b16a, b16b) = sweeps::tier_params(ctx);
     // all strings of 4 bytes only where the property is about arbitrary strings (C03)
     let nb = if ctx.prop == "C03" { nb } else { 3 };
+    let t0 = std::time::Instant::now();
     let n = sweeps::u_bytes(nb, light);
     ctx.count(&format!("{}_U_bytes(<={nb})", F::NAME), n);
+    ctx.count(&format!("{}_ms_U_bytes", F::NAME), t0.elapsed().as_millis() as u64);
+    let t0 = std::time::Instant::now();
     let n = sweeps::u_frame(fam, full_r, b16a, b16b, light);
     ctx.count(&format!("{}_U_frame(r<={full_r};B16 r={b16a}..={b16b})", F::NAME), n);
+    ctx.count(&format!("{}_ms_U_frame", F::NAME), t0.elapsed().as_millis() as u64);
     let n = sweeps::max_headers(if ctx.thorough() { 3 } else { 2 }, light);
     ctx.count(&format!("{}_max_headers", F::NAME), n);
     // single-edit neighbourhoods of every small frame
     let frames = sweeps::small_frames(fam, if ctx.thorough() { 40 } else { 24 });
     ctx.count(&format!("{}_U_small_frames", F::NAME), frames.len() as u64);
     let n1 = AtomicU64::new(0);
+    let t0 = std::time::Instant::now();
     frames.par_iter().for_each(|f| {
         heavy(f);
         let k = sweeps::n1(f, &mut |b| {
@@ -67,6 +72,7 @@ pub fn all_byte_universes<F: Fam>(ctx: &Ctx, light: &(dyn Fn(&[u8]) + Sync), hea
         n1.fetch_add(k, Relaxed);
     });
     ctx.count(&format!("{}_N1", F::NAME), n1.load(Relaxed));
+    ctx.count(&format!("{}_ms_N1", F::NAME), t0.elapsed().as_millis() as u64);
     if ctx.thorough() {
         let n2 = AtomicU64::new(0);
         frames.par_iter().filter(|f| f.len() <= 12).for_each(|f| {
